@@ -35,6 +35,9 @@ def check(ctx, tier):
     fs = [f for q, f in ctx.program.funcs.items() if q.startswith("hashtable.")]
     hazards.h2_argmax_of_mask(ctx, tk, "C11.b", fs)
     W.report(ctx, tk, "C11.j", fs)
+    tk.purity("C11.p", [ctx.func(q) for q in ['hashtable.HashTable.__getitem__', 'hashtable.HashTable.contains', 'hashtable.HashTable.__add__', 'hashtable.HashTable.__eq__', 'hashtable.HashTable.items', 'hashtable.HashTable.to_dict', 'hashtable.HashTable._get_indices', 'hashtable.HashTable.__array_function__', 'hashtable.HashSet.contains', 'hashtable.zeros_like', 'hashtable.ones_like']], "the operation does not write into its operands' buffers", content_only=True)
+    from .. import hazards as _hz, scopes as _sc
+    _hz.generic(ctx, tk, "C11.z", _sc.scope(tk, "C11"))
     return {}
 
 
@@ -194,8 +197,28 @@ def single_hash(ctx, tk):
     ga = ctx.fa(g)
     for r in ga.cfg.returns():
         tm = ga.term(r.ast.value, r)
-        ok = tm.k == "bin" and tm.a[0] == "%" and tm.a[1].k == "param" and attr_chain(tm.a[2]) == (g.params[0], "_mod")
-        ctx.decide("C11.d", g, "the hash is key modulo the table's modulus", True if ok else None, node=r.ast, engine="E5")
+        ok = (tm.k == "bin" and tm.a[0] == "%" and tm.a[1].k == "param" and attr_chain(tm.a[2]) == (g.params[0], "_mod")) or \
+            (np_call(tm, {"mod", "remainder"}) and len(tm.a[1]) == 2 and attr_chain(tm.a[1][1]) == (g.params[0], "_mod"))
+        bad = np_call(tm, {"fmod"}) is not None
+        ctx.decide("C11.d", g, "the hash is key modulo the table's modulus, i.e. a bucket number in [0, modulus) also for negative keys", True if ok else (False if bad else None),
+                   "`%s`: np.fmod takes the sign of the key, so negative keys get negative bucket numbers that disagree with the sorted bucket layout" % (tm,), node=r.ast, engine="KB")
+    # keys handed over as buckets: the modulus is their number of rows
+    f0 = ctx.func(HT + "__init__")
+    fa0 = ctx.fa(f0)
+    for n in fa0.cfg.stmts():
+        if n.kind == "stmt" and isinstance(n.ast, ast.Assign) and isinstance(n.ast.targets[0], ast.Attribute) and n.ast.targets[0].attr == "_mod":
+            tm = fa0.term(n.ast.value, n)
+            if any(t.k == "call" and call_name(t) == "isinstance" and truth for t, truth, _ in facts_at(fa0, n)):
+                ok = (tm.k == "call" and call_name(tm) == "len" and tm.a[1] and tm.a[1][0].k == "param" and tm.a[1][0].a[0] == f0.params[1]) or (attr_chain(tm) or ("",))[-1] == "n_rows"
+                ctx.decide("C11.d", f0, "for keys handed over as buckets the modulus is the number of bucket rows", True if ok else False,
+                           "modulus is %s: lookups hash into a different number of buckets than the keys are stored in" % (tm,), node=n.ast, key="mod-of-buckets", engine="E5")
+    for n in fa0.cfg.stmts():
+        if n.kind == "stmt" and isinstance(n.ast, ast.Assign) and isinstance(n.ast.targets[0], ast.Attribute) and n.ast.targets[0].attr == "_value_dtype":
+            tm = fa0.term(n.ast.value, n)
+            srcs = {(attr_chain(x.a[0]) or ("?",))[-1] for x in walk(tm) if x.k == "attr" and x.a[1] == "dtype"}
+            ok = "_keys" not in srcs and "keys" not in srcs
+            ctx.decide("C11.h", f0, "the value dtype is taken from the values (or the value_dtype argument), never from the keys", ok,
+                       "value dtype derives from %s: counts / values are cast to the key dtype" % sorted(srcs), node=n.ast, key="value-dtype-source", engine="E5")
     b = ctx.func(HT + "_build_ragged_array")
     ba = ctx.fa(b)
     for n in ba.cfg.stmts():
